@@ -307,6 +307,10 @@ pub struct ScriptSpec {
     pub read_base: u16,
     /// poll indices at which the callback clears the shared MCR (seam N5, mid-call)
     pub mcr_clear: Vec<u32>,
+    /// how the device is handed to the simulator: 0 = directly, 1 = behind the library's
+    /// `Arc<RwLock<D>>` adapter, 2 = behind its `Arc<Mutex<D>>` adapter (both use try-locks)
+    #[serde(default)]
+    pub wrap: u8,
 }
 
 #[derive(Debug)]
